@@ -376,16 +376,22 @@ func checkFaithful(dec *TOMLDeviceConfig, cfg *Config, err error) {
 			}
 		}
 		for _, sub := range m.KeyMapping {
-			if len(sub.Map) != 1 {
-				continue
-			}
 			for name, val := range sub.Map {
 				code, e2 := TomlKeyToEvCode(name, evdev.KEYFromString)
 				verifrt.Assert(e2 == nil, "C10: accepted files have only known key names")
 				k, ok := km.Midi[sub.SubHandler][code]
 				verifrt.Assert(ok && k.Note <= 127 && k.ChannelOffset <= 15, "C10: every key of the file is in the configuration, in range")
 				okRef, wantNote, wantOff := refKeyValue(val)
-				verifrt.Assert(okRef && k.Note == wantNote && k.ChannelOffset == wantOff, "C10: every key has the note and channel offset the file says")
+				// the same key may be written twice (by name and by hex code): then either entry is a faithful answer
+				other := false
+				for n2, v2 := range sub.Map {
+					c2, e3 := TomlKeyToEvCode(n2, evdev.KEYFromString)
+					if n2 != name && e3 == nil && c2 == code {
+						ok2, n2v, o2v := refKeyValue(v2)
+						other = other || (ok2 && k.Note == n2v && k.ChannelOffset == o2v)
+					}
+				}
+				verifrt.Assert(okRef && ((k.Note == wantNote && k.ChannelOffset == wantOff) || other), "C10: every key has the note and channel offset the file says")
 			}
 		}
 	}
